@@ -7,6 +7,7 @@ mod policy;
 mod rename;
 mod choreo;
 mod highlight;
+mod pins;
 
 use ir::*;
 use kinds::Kinds;
@@ -164,6 +165,10 @@ fn main() {
     ok &= run_group("highlight", &["Highlight.lean"], &out, baseline.as_deref(), move || {
         vec![("Highlight.lean", highlight::extract(&repo4).unwrap_or_else(|e| die(e)))]
     });
+    // pins of hand-modelled code: nothing is generated, a differing pin only asks for more correspondence runs
+    for (g, why) in pins::check(&repo) {
+        println!("FALLBACK pin_{g}: {}", why.replace('\n', " "));
+    }
     if !ok {
         std::process::exit(1);
     }
